@@ -130,7 +130,8 @@ pub fn staking_msg(rng: &mut Rng, sc: &Sc, o: &Obs) -> (Value, Vec<(String, u128
             if rng.chance(1, 2) {
                 let pp = if rng.chance(1, 3) { prefix_pool(rng, sc) } else { sc.cfg.prefix.clone() };
                 let low = pp.to_lowercase();
-                let ch = match rng.below(6) {
+                let ch = match rng.below(8) {
+                    6 => rng.pick(&["channel", "channel5", "channel_7", "channels-1", "channe", "channel-"]).to_string(),
                     0 => "channel-0".to_string(),
                     1 => format!("channel-{}", u64::MAX),
                     2 => "channel-".to_string(),
@@ -231,13 +232,13 @@ pub fn next(rng: &mut Rng, sc: &Sc, o: &Obs) -> Vec<Op> {
                 0 => json!({"config": {}}),
                 1 => json!({"state": {}}),
                 2 => json!({"batch": {"id": rng.below(o.pending.id + 3)}}),
-                3 => json!({"batches": {"start_after": if rng.chance(1, 2) { json!(rng.below(o.pending.id + 3)) } else { Value::Null }, "limit": *rng.pick(&[json!(null), json!(0), json!(1), json!(u32::MAX)]), "status": *rng.pick(&[json!(null), json!("Pending"), json!("Submitted"), json!("Received"), json!("bogus")])}}),
+                3 => json!({"batches": {"start_after": if rng.chance(1, 2) { json!(if rng.chance(1, 5) { u64::MAX } else { rng.below(o.pending.id + 3) }) } else { Value::Null }, "limit": *rng.pick(&[json!(null), json!(0), json!(1), json!(u32::MAX)]), "status": *rng.pick(&[json!(null), json!("Pending"), json!("Submitted"), json!("Received"), json!("bogus")])}}),
                 4 => json!({"batches_by_ids": {"ids": [0, 1, rng.below(10), u64::MAX]}}),
                 5 => json!({"pending_batch": {}}),
                 6 => json!({"unstake_requests": {"user": if rng.chance(1, 2) { sc.users[0].clone() } else { junk_str(rng, sc) }}}),
-                7 => json!({"all_unstake_requests": {"start_after": if rng.chance(1, 2) { json!(rng.below(5)) } else { Value::Null }, "limit": *rng.pick(&[json!(null), json!(0), json!(2), json!(u32::MAX)])}}),
-                8 => json!({"all_unstake_requests_v2": {"start_after": if rng.chance(1, 2) { json!(rng.below(5)) } else { Value::Null }, "limit": *rng.pick(&[json!(null), json!(0), json!(2), json!(u32::MAX)])}}),
-                9 => json!({"ibc_queue": {"start_after": if rng.chance(1, 2) { json!(rng.below(50)) } else { Value::Null }, "limit": *rng.pick(&[json!(null), json!(0), json!(3), json!(u32::MAX)])}}),
+                7 => json!({"all_unstake_requests": {"start_after": if rng.chance(1, 2) { json!(*rng.pick(&[0u64, 1, 2, 3, 4, u64::MAX, u64::MAX - 1])) } else { Value::Null }, "limit": *rng.pick(&[json!(null), json!(0), json!(2), json!(u32::MAX)])}}),
+                8 => json!({"all_unstake_requests_v2": {"start_after": if rng.chance(1, 2) { json!(*rng.pick(&[0u64, 1, 2, 3, 4, u64::MAX, u64::MAX - 1])) } else { Value::Null }, "limit": *rng.pick(&[json!(null), json!(0), json!(2), json!(u32::MAX)])}}),
+                9 => json!({"ibc_queue": {"start_after": if rng.chance(1, 2) { json!(if rng.chance(1, 5) { u64::MAX } else { rng.below(50) }) } else { Value::Null }, "limit": *rng.pick(&[json!(null), json!(0), json!(3), json!(u32::MAX)])}}),
                 10 => json!({"ibc_reply_queue": {"start_after": Value::Null, "limit": *rng.pick(&[json!(null), json!(0)])}}),
                 _ => json!({"nonsense": 1}),
             };
